@@ -365,7 +365,7 @@ fn integrity_tail() -> BoxedStrategy<Vec<WireAttr>> {
 pub fn run(ctx: &Ctx) -> EvidenceMeta {
     ctx.proptest(
         "sealed-tamper",
-        ctx.n(600, 40_000),
+        ctx.n(2_000, 60_000),
         || {
             (
                 gen::msg_spec(gen::seal_strategy(true, false), 4, 1),
@@ -383,7 +383,7 @@ pub fn run(ctx: &Ctx) -> EvidenceMeta {
     );
     ctx.proptest(
         "hand-assembled",
-        ctx.n(6_000, 400_000),
+        ctx.n(40_000, 1_500_000),
         || {
             (
                 gen::wire_type(),
